@@ -51,6 +51,7 @@ enum
     K_GET_STATE,
     K_REINIT,
     K_SCHED,
+    K_OPENFAULT, // the next configure finds the camera / storage device it wants to open refused (one shot)
     K_COUNT
 };
 
@@ -62,6 +63,7 @@ const VhKindSpec kKinds[K_COUNT] = {
     { "ABORT", 3, 0, 0, 0, 0 },             { "ABORT_OTHER", 2, 255, 0, 0, 0 }, { "TRIGGER", 3, 1, 0, 0, 0 },
     { "MAP", 5, 1, 0, 0, 0 },               { "UNMAP", 5, 1, 255, 0, 0 },       { "SLEEP", 3, 255, 0, 0, 0 },
     { "GET_STATE", 2, 0, 0, 0, 0 },         { "REINIT", 1, 0, 0, 0, 0 },        { "SCHED", 5, 255, 65535, 65535, 65535 },
+    { "OPENFAULT", 1, 3, 0, 0, 0 },
 };
 
 enum
@@ -116,6 +118,7 @@ enum
     CL_NO_STOP,
     CL_FINE,
     CL_MIXED_SIZES,
+    CL_OPEN_REFUSED,
 };
 
 const VhSpec kSpec = {
@@ -129,7 +132,7 @@ const VhSpec kSpec = {
       "monitor_first_used_in_later_acquisition", "client_holds_region", "abort", "abort_while_worker_blocked", "abort_while_client_mapped",
       "abort_from_other_thread", "trigger_mode", "averaging", "averaging_2_windows", "fault_camera_frame", "fault_storage_append", "fault_start",
       "fault_fired", "fault_while_source_blocked", "shutdown_reinit", "start_while_running", "device_switch", "stream_toggled", "camera_no_frame_returns",
-      "hardware_id_gaps", "pct_schedule", "preemptions", "step_limit_inconclusive", "configure_while_running", "poll_then_continue_without_stop", "edge_preemptions", "frame_sizes_vary_within_acquisition", nullptr },
+      "hardware_id_gaps", "pct_schedule", "preemptions", "step_limit_inconclusive", "configure_while_running", "poll_then_continue_without_stop", "edge_preemptions", "frame_sizes_vary_within_acquisition", "device_open_refused_during_configure", nullptr },
     { "C04 non-trivial: a finite acquisition completed with >=3 wraps of the sink ring AND (sink caught up at a wrap, or source blocked on a full ring, or a monitor lagging >= 1 frame, or write delay > 0)",
       "C05 non-trivial: image bytes % 8 != 0 AND a packet starting right after a wrap or after a partial client consume",
       "C06 non-trivial: >=2 acquisitions AND the monitor registered AND (partial consume, or hold while the ring filled, or first registration in a later acquisition)",
@@ -154,6 +157,7 @@ struct StreamCfg
     float write_delay_ms = 0, store_delay_ms = 0;
     int fault_site = 0; // 0 none, 1 camera frame, 2 storage append, 3 storage start, 4 camera start
     int fault_index = 0;
+    int open_fault = 0; // 1: the camera, 2: the storage device cannot be opened at the next configure (one shot)
 };
 
 struct Op
@@ -628,10 +632,31 @@ do_configure(Ctx& x, const StreamCfg cfg_in[2])
               cfg[1].store, cfg[1].w, cfg[1].h, tyname(cfg[1].type), cfg[1].nframes, cfg[1].avg);
     if (x.running)
         x.c.cls(CL_CONFIG_WHILE_RUNNING);
+    for (int s = 0; s < 2; ++s)
+        if (cfg[s].enabled && cfg[s].open_fault && !x.running)
+            vmock::hub.refuse_open[cfg[s].open_fault == 1 ? cfg[s].cam : 2 + cfg[s].store] = true;
+    int refused_before = vmock::hub.opens_refused;
     AcquireStatusCode r = acquire_configure(x.rt, &props);
+    for (bool& b : vmock::hub.refuse_open)
+        b = false;
+    if (vmock::hub.opens_refused > refused_before) {
+        x.c.cls(CL_OPEN_REFUSED);
+        x.c.trace("    (a device open was refused during this configure)");
+        if (x.started_acqs >= 1)
+            x.c.nontrivial(P_C08);
+    }
     if (r != AcquireStatus_Ok) {
         x.c.trace("    -> configure failed");
         x.configured = false;
+        vmock::check_released("failed configure");
+        return;
+    }
+    if (vmock::hub.opens_refused > refused_before && !x.running && acquire_get_state(x.rt) != DeviceState_Armed) {
+        // a stream that cannot be configured leaves the runtime awaiting configuration; the call itself
+        // reports Ok (acquire.c) and the client sees it in the state
+        x.c.trace("    -> configure left the runtime in state %s", device_state_as_string(acquire_get_state(x.rt)));
+        x.configured = false;
+        vmock::check_released("configure with a refused open");
         return;
     }
     x.configured = true;
@@ -1596,6 +1621,9 @@ vh_run(const VhTok* tape, size_t n, VhReport* rep)
                     cur[s].fault_site = (t.b & 0x80) ? cur[s].fault_site : 2; // start faults are rarer
                 cur[s].fault_index = t.b % 12;
                 break;
+            case K_OPENFAULT:
+                cur[(t.a >> 1) & 1].open_fault = 1 + (t.a & 1);
+                break;
             case K_SCHED: {
                 if (x.sched.bytes.empty() && (t.a & 1)) {
                     x.sched.mode = vsim::TapeSched::PCT;
@@ -1681,6 +1709,7 @@ vh_run(const VhTok* tape, size_t n, VhReport* rep)
                 x.ops.push_back(op);
                 note_sizes(c2);
                 cur[0].fault_site = cur[1].fault_site = 0;
+                cur[0].open_fault = cur[1].open_fault = 0;
                 break;
             }
             default: {
@@ -1690,6 +1719,8 @@ vh_run(const VhTok* tape, size_t n, VhReport* rep)
                     note_sizes(cur);
                     if (kind == K_START)
                         cur[0].fault_site = cur[1].fault_site = 0;
+                    if (kind == K_CONFIGURE)
+                        cur[0].open_fault = cur[1].open_fault = 0;
                 }
                 break;
             }
